@@ -43,6 +43,23 @@ def cases(rng, tier):
             tag = "open.grammar"
         cs.append(Case(3, [], [b], tag))
         cs.append(Case(6, [], [b], tag))
+    # boundary: optional parameters of exactly 250..255 octets in one and in two parameters (the largest representable OPEN)
+    import struct
+    for total in (250, 251, 252, 253, 254, 255):
+        for split in (0, 8, 100):
+            if split == 0:
+                caps = bytes([1, total - 4]) + gen.rbytes(rng, total - 4)             # one capability filling one parameter
+                params = bytes([2, total - 2]) + caps
+            else:
+                a = bytes([65, 4]) + struct.pack(">I", 65000) + bytes([1, split - 8 - 2 + 0]) + gen.rbytes(rng, split - 10) if split > 10 else bytes([65, 4]) + struct.pack(">I", 65000)
+                pa = bytes([2, len(a)]) + a
+                rest = total - len(pa)
+                pb = bytes([2, rest - 2]) + bytes([3, rest - 4]) + gen.rbytes(rng, rest - 4)
+                params = pa + pb
+            assert len(params) == total, (total, split, len(params))
+            b = struct.pack(">BHHIB", 4, 65000, 90, 0x0A000002, total) + params
+            cs.append(Case(3, [], [b], "open.max-params"))
+            cs.append(Case(6, [], [b], "open.max-params"))
     # add-path tuples: all direction octets, lengths around multiples of 4
     for d in range(256):
         cs.append(Case(8, [], [bytes([0, 1, 1, d])], "addpath.dir"))
